@@ -264,8 +264,13 @@ fn compare(p: &Proj, st: &Value) -> Result<(), String> {
 
 fn gk_patch_bytes(gp: &Value, base: &Base) -> Vec<u8> {
     let gids: Vec<u32> = gp["gids"].as_array().unwrap().iter().map(|g| g.as_u64().unwrap() as u32).collect();
-    let tables: Vec<(Tag, Vec<Vec<u8>>)> = gp["tables"].as_array().unwrap().iter().map(|t| (tag4(t.as_str().unwrap()), blobs(&gp["data"][t.as_str().unwrap()]))).collect();
+    let mut tables: Vec<(Tag, Vec<Vec<u8>>)> = gp["tables"].as_array().unwrap().iter().map(|t| (tag4(t.as_str().unwrap()), blobs(&gp["data"][t.as_str().unwrap()]))).collect();
     let _ = base;
+    // every other patch also lists a table that glyph keyed patches do not apply to (it exists in the font): its data is
+    // skipped and the table stays as it is
+    if gp["entry"].as_u64().unwrap_or(0) % 2 == 0 {
+        tables.push((Tag::new(b"tab1"), vec![vec![0xEE, 0xEF]; gids.len()]));
+    }
     glyph_keyed_patch(gp["hdr"].as_u64().unwrap() as u32, &glyph_patches_payload(&gids, &tables, false), false)
 }
 
